@@ -22,6 +22,25 @@ func vInsideTri(t []Point, p Point) bool {
 	return vIteB(o > 0, vAnd(a > 0, b > 0, c > 0), vAnd(a < 0, b < 0, c < 0))
 }
 
+// the shoelace sum exactly as area() forms it
+func vShoelace(r Path) float64 {
+	hi := len(r) - 1
+	a := (r[hi].X + r[0].X) * (r[0].Y - r[hi].Y)
+	for i := 0; i < hi; i++ {
+		a += (r[i].X + r[i+1].X) * (r[i+1].Y - r[i].Y)
+	}
+	return a
+}
+
+// polynomial identity (decided in real arithmetic): the shoelace sum of a
+// triangle ring, closed or not, is its orientation determinant up to sign
+func VH_C03_lemma_shoelace() {
+	t := vGridPath(3, 3, 5, 0)
+	r := vRing(t, vChoose(2) == 1)
+	vAssert(vAbs(vShoelace(r)) == vAbs(vOrient(t[0], t[1], t[2])), "shoelace-equals-orientation")
+	vReach("end")
+}
+
 func VH_C03_area_triangle() {
 	w := vBound(4, 5)
 	t := vGridPath(3, 3, w, 0)
@@ -40,6 +59,8 @@ func VH_C03_area_with_hole() {
 	os, oh := vOrient(s[0], s[1], s[2]), vOrient(h[0], h[1], h[2])
 	vAssume(vAnd(os != 0, oh != 0, vInsideTri(s, h[0]), vInsideTri(s, h[1]), vInsideTri(s, h[2])))
 	pg := Polygon{vRing(s, vChoose(2) == 1), vRing(h, vChoose(2) == 1)}
+	vLemma(vAbs(vShoelace(pg[0])) == vAbs(os), "VH_C03_lemma_shoelace")
+	vLemma(vAbs(vShoelace(pg[1])) == vAbs(oh), "VH_C03_lemma_shoelace")
 	vAssert(pg.Area() == (vAbs(os)-vAbs(oh))/2, "shell-minus-hole-any-winding")
 	vReach("end")
 }
